@@ -7,8 +7,9 @@
    execute line p), i.e. at most one access to the shared state.  The `with`
    lines are visited twice: on entry (acquire) and on normal exit (release).
 
-   Line numbers refer to /repo after the commit
-   `fix: _modules_copyable initialises its shared state once`:
+   Line numbers are those of /repo at the commit dd9390a
+   `fix: _modules_copyable initialises its shared state once` (later commits
+   shift them; the harness maps lines to these names by their source text):
 
      __new__   64 NChk     if cls.__instance__ is None:
                65 NAcq         with cls.__instance_lock__:
